@@ -81,6 +81,21 @@ def bestProbe (g : Rat → Rat) : Rat → List Rat → Rat × Rat
 def optimizeWrapper {X : Type} (similarity : X → Rat) (fmin : (X → Rat) → X → X) (tc0 : X) : X :=
   fmin (fun tc => - similarity tc) tc0
 
+/-- The wrapper as written since the fix "optimize keeps the initial guess when the optimizer ends on a
+    non-finite point": parameter vectors may be non-finite (`finite tc = false`: NaN / inf entries, produced
+    by SciPy's optimisers on flat similarities); the cost of such a point is `+∞` (`none`), and when the
+    optimiser *returns* one, the initial guess `tc0` is kept. -/
+def optimizeWrapperG {X : Type} (finite : X → Bool) (similarity : X → Rat)
+    (fmin : (X → Option Rat) → X → X) (tc0 : X) : X :=
+  let tc := fmin (fun tc => if finite tc then some (- similarity tc) else none) tc0
+  if finite tc then tc else tc0
+
+/-- order on costs with `none = +∞` -/
+def costLe : Option Rat → Option Rat → Prop
+  | _, none => True
+  | none, some _ => False
+  | some a, some b => a ≤ b
+
 /-- reading the similarity back from a cost value -/
 def similarityOfCost (cost : Rat) : Rat := - cost
 
